@@ -124,7 +124,7 @@ theorem pollNth_hist (s : State) (j : Nat) : SameHist s (pollNth s j) := by
   · rename_i t _
     cases t
     · exact pollD_hist s
-    · exact SameHist.trans ⟨rfl, rfl, rfl, id⟩ (eLoop_hist 3 _)
+    · exact SameHist.trans ⟨rfl, rfl, rfl, id⟩ (eLoop_hist 4 _)
     · exact ⟨rfl, rfl, rfl, id⟩
   · exact SameHist.refl s
 
@@ -481,7 +481,7 @@ theorem C10_sync_read_is_previous_or_none (s : State) (e : Event) :
       · rcases pollD_value s with h | ⟨h1, h2⟩
         · exact .inl h
         · exact .inr (.inr ⟨j, rfl, h1, h2⟩)
-      · exact .inl (eLoop_value 3 _)
+      · exact .inl (eLoop_value 4 _)
       · exact .inl rfl
     · exact .inl rfl
   | get => exact .inl rfl
